@@ -1001,6 +1001,32 @@ def gen_oneshot_resub_at_flush(seed, mode="loop"):
     return sc
 
 
+def gen_quit_during_loop_start(seed, mode="loop"):
+    """C03: a module still IDLE when the loop starts requests quit from the evaluation / start callback that the loop start runs
+    for it (the request is accepted: the context is looping): the run ends at once, returning exactly that code"""
+    r = random.Random(seed * 163 + 137)
+    sc = Sc(mode, "quit requested from a callback run by the loop start seed=%d" % seed)
+    driven_skeleton(sc)
+    Q, O = 1, 2
+    code = r.randrange(1, 250)
+    where = r.choice(["start", "eval", "eval_refuse"])
+    sc.mod(Q, "quitter", 0, 3)
+    sc.mod(O, "other", 0, r.choice([0, 3]))
+    sc.cb(Q, "eval", "*", [("ctx_quit", code)] if where != "start" else [], ret=0 if where == "eval_refuse" else 1)
+    sc.cb(Q, "start", "*", [("ctx_quit", code)] if where == "start" else [])
+    sc.cb(O, "eval", "*", [])
+    sc.cb(O, "start", "*", [])
+    sc.cb(Q, "evt", "*", [])
+    sc.cb(O, "evt", "*", [])
+    sc.main += [("reg", Q), ("reg", O)]
+    if r.random() < 0.5:
+        sc.main.append(("start", O))
+    steps = [[] for _ in range(r.randrange(3, 7))]
+    driven_finish(sc, steps, rng=r)
+    finalize_main(sc)
+    return sc
+
+
 def gen_restart_while_leaving(seed, mode="loop"):
     """C01: from the stop callback that its own deregistration runs, a module starts itself again - alone, or after the name
     it just gave up has been registered again by another module: ZOMBIE is final, the call is refused and changes nothing"""
